@@ -434,9 +434,9 @@ class Fitter:
         content: Fragment | None = None,
     ) -> None:
         top = self.frontier[self.depth]
-        top_match = top.match.match_type(type_)
-        assert top_match is not None
-        top.match = top_match
+        # may be None: the frontier node is then only closed again, never matched
+        # against (the JavaScript original tolerates the null the same way)
+        top.match = top.match.match_type(type_)  # type: ignore[assignment]
         self.placed = add_to_fragment(
             self.placed,
             self.depth,
